@@ -273,6 +273,7 @@ fn verify_messages(rep: &mut Rep, dir: &str) {
         rep.inconclusive("no message files to verify".to_string());
         return;
     }
+    let mut verdict_lines: Vec<String> = vec![];
     for f in files {
         let recs: Vec<Value> = match std::fs::read(&f).ok().and_then(|b| serde_json::from_slice(&b).ok()) {
             Some(v) => v,
@@ -295,6 +296,74 @@ fn verify_messages(rep: &mut Rep, dir: &str) {
             let signal = unhex(rec["signal"].as_str().unwrap());
             let root = unhex(rec["root"].as_str().unwrap());
             let req = enc_verify_request(&msg, &signal);
+            // verdicts of this build on variants of the message (tampered, truncated, other root sets): which verdict
+            // is right is C02's / C13's subject on the default build; here every build must give the SAME verdict,
+            // the comparison is done by the driver on the files written below
+            if msg.len() == 288 && root.len() == 32 {
+                let det = |tag: &str, n: usize| -> Vec<u8> {
+                    let mut out = vec![];
+                    let mut k = 0u32;
+                    while out.len() < n {
+                        out.extend(unhex(&crate::noderef::sha256_hex(&[&msg[..], tag.as_bytes(), &k.to_le_bytes()].concat())));
+                        k += 1;
+                    }
+                    out.truncate(n);
+                    out
+                };
+                let mut sig_flip = signal.clone();
+                if sig_flip.is_empty() {
+                    sig_flip.push(1);
+                } else {
+                    sig_flip[0] ^= 1;
+                }
+                let mut msg_x = msg.clone();
+                msg_x[192] ^= 1;
+                let mut msg_y = msg.clone();
+                msg_y[224] ^= 1;
+                let mut msg_ext = msg.clone();
+                msg_ext[160] ^= 1;
+                let mut len_hi = msg.clone();
+                len_hi.extend(enc_u64(signal.len() as u64 + (1u64 << 32)));
+                len_hi.extend_from_slice(&signal);
+                let other = det("other-root", 32);
+                let variants: Vec<(&str, Vec<u8>, Vec<u8>)> = vec![
+                    ("valid|roots=[root]", req.clone(), root.clone()),
+                    ("valid|roots=[]", req.clone(), vec![]),
+                    ("valid|roots=[other]", req.clone(), other.clone()),
+                    ("valid|roots=[other,root]", req.clone(), [other.clone(), root.clone()].concat()),
+                    ("valid|roots=[root,root]", req.clone(), [root.clone(), root.clone()].concat()),
+                    ("valid|roots=[root+7 bytes]", req.clone(), [root.clone(), det("frag", 7)].concat()),
+                    ("valid|roots=[other+7 bytes]", req.clone(), [other.clone(), det("frag", 7)].concat()),
+                    ("valid|roots=[1 byte,root]", req.clone(), [vec![7u8], root.clone()].concat()),
+                    ("valid|roots=31 bytes", req.clone(), det("short", 31)),
+                    ("signal-flipped", enc_verify_request(&msg, &sig_flip), root.clone()),
+                    ("x-flipped", enc_verify_request(&msg_x, &signal), root.clone()),
+                    ("y-flipped", enc_verify_request(&msg_y, &signal), root.clone()),
+                    ("external-nullifier-flipped", enc_verify_request(&msg_ext, &signal), root.clone()),
+                    ("truncated@290", req[..290.min(req.len())].to_vec(), root.clone()),
+                    ("truncated@288", req[..288].to_vec(), root.clone()),
+                    ("declared-length+2^32", len_hi, root.clone()),
+                    ("trailing-bytes", [req.clone(), det("tail", 5)].concat(), root.clone()),
+                ];
+                let vs = |v: Result<Result<bool, String>, Panicked>| match v {
+                    Ok(Ok(true)) => "true",
+                    Ok(Ok(false)) => "false",
+                    Ok(Err(_)) => "err",
+                    Err(_) => "panic",
+                };
+                for (tag, rq, roots) in variants {
+                    rep.ev();
+                    rep.stratum(format!("verdict|{tag}"));
+                    let v = catch(|| r.verify_with_roots(Cursor::new(rq.clone()), Cursor::new(roots.clone())).map_err(|e| e.to_string()));
+                    verdict_lines.push(format!("{}|{}|verify_with_roots|{tag}|{}", producer, rec["n"], vs(v)));
+                }
+                for (tag, m2) in [("valid", msg.clone()), ("x-flipped", msg_x.clone()), ("proof-bit-flipped", { let mut m = msg.clone(); m[5] ^= 2; m }), ("truncated@287", msg[..287].to_vec()), ("trailing-byte", [msg.clone(), vec![0u8]].concat())] {
+                    rep.ev();
+                    rep.stratum(format!("verdict|verify|{tag}"));
+                    let v = catch(|| r.verify(Cursor::new(m2.clone())).map_err(|e| e.to_string()));
+                    verdict_lines.push(format!("{}|{}|verify|{tag}|{}", producer, rec["n"], vs(v)));
+                }
+            }
             rep.ev();
             rep.stratum(format!("verify|verifier={me}|producer={producer}|n={}", rec["n"]));
             let v = catch(|| r.verify_with_roots(Cursor::new(req.clone()), Cursor::new(root.clone())).map_err(|e| e.to_string()));
@@ -318,6 +387,8 @@ fn verify_messages(rep: &mut Rep, dir: &str) {
             }
         }
     }
+    let _ = std::fs::write(format!("{dir}/verdicts-{me}.txt"), verdict_lines.join("\n"));
+    rep.countn("verdicts_on_message_variants", verdict_lines.len() as u64);
 }
 
 #[cfg(feature = "arkzkey")]
